@@ -4,7 +4,7 @@ open Abverif Abverif.Errors
 
 /-! line protocol of the C18 model (values, URIs, class names are tokens without blanks and without `; , = | : + ~`)
 
-`err.rt <calleeDefs> <callerDefs> <ctors> <exc> <tb> <dots>`   (tokens starting with `s` are strings; dots = token of "...")
+`err.rt <calleeDefs> <callerDefs> <ctors> <exc> <tb>`
    defs    `;`-separated `cls:<w>:<e>`   w = `~` (no `_wampuris`) or `,`-joined pattern URIs (`.` = empty list);
                                           e = `~` (define(cls)) or the explicit error URI.  `-` = no definitions.
            every definition is applied with `define` to `Registry.init`; a failing one leaves the registry unchanged
@@ -147,7 +147,7 @@ def parseMro (s : String) : Option (List (Cls × List Cls)) :=
 def dedup (l : List String) : List String := l.foldl (fun acc x => if acc.contains x then acc else acc ++ [x]) []
 
 def handle : List String → Option String
-  | ["err.rt", d1, d2, ct, ex, tb, dots] => do
+  | ["err.rt", d1, d2, ct, ex, tb] => do
       let defs1 ← (splitOn ';' d1).mapM parseDef
       let defs2 ← (splitOn ';' d2).mapM parseDef
       let ctors ← parseCtors ct
@@ -155,9 +155,8 @@ def handle : List String → Option String
       let tbv : Option String := if tb = "~" then none else some tb
       let r1 := applyDefs defs1
       let r2 := applyDefs defs2
-      let isStr := fun (t : String) => t.startsWith "s"
-      let m := invocationError isStr dots r1 e tbv
-      let model := roundtripInv isStr dots r1 r2 (ctorOf ctors) e tbv
+      let m := invocationError r1 e tbv
+      let model := roundtripInv r1 r2 (ctorOf ctors) e tbv
       let spec := Spec.caller r1 r2 (ctorOf ctors) e tbv
       let specMsg := s!"{Spec.uri r1 e}|{renderList (Spec.args e)}|{renderKw (Spec.kwargs e tbv)}"
       pure s!"{renderMsg m} M={renderRExc model} SM={specMsg} S={renderRExc spec}"
